@@ -556,6 +556,7 @@ def debug_reference_snapshot(u: Unit):
             key = DU.norm(fn.node, tgt.slice)
             if ast.unparse(tgt.value).endswith("intermediate") and key in ("'last'", '"last"'):
                 stores.append(DU.norm(fn.node, nd.value))
-    ok = bool(stores) and all(("copy(deep=True)" in e.replace(" ", "")) or "deepcopy(" in e for e in stores)
+    import re as _re
+    ok = bool(stores) and all(_re.search(r"\.copy\((deep=)?True[,)]", e.replace(" ", "")) is not None or "deepcopy(" in e for e in stores)
     u.static("debug.reference_snapshot_is_a_deep_copy", ok, fn.qualname, f"value stored under intermediate['last']: {stores}", replay=DEBUGREC_REPLAY, witness={"stored": stores})
     u.guard("debug.reference_snapshot.cover", len(stores) >= 1, fn.qualname, f"{len(stores)} assignments to intermediate['last'] found")
